@@ -101,7 +101,7 @@ pub fn c15(case_seed: u64, acc: &mut Acc) {
     if want_static {
         cfg.reads = 0;
         cfg.device_bounds = 0;
-        cfg.n_declares = (0, 1);
+        cfg.n_declares = (0, 2);
     }
     if r.chance(150, 1000) {
         cfg.allow_random = 120;
@@ -110,16 +110,28 @@ pub fn c15(case_seed: u64, acc: &mut Acc) {
     let mut case = gen::generate(&mut r, &cfg);
     if want_static {
         // declarations read outputs; a static program has none that do
-        fn strip(items: &mut Vec<Item>) {
+        // ... but constant expressions are fine, including ones that cannot be evaluated: the
+        // static iterator must then yield the same error items as every dynamic run
+        fn strip(items: &mut Vec<Item>, r: &mut Prng) {
+            let n = |v: i64| Box::new(Expr::Num(v, Radix::Dec));
             for it in items.iter_mut() {
                 match it {
-                    Item::Declare(_, e) => *e = Expr::Num(7, Radix::Dec),
-                    Item::Loop(_, _, inner) | Item::While(_, inner) => strip(inner),
+                    Item::Declare(_, e) => {
+                        *e = match r.below(8) {
+                            0 => Expr::Bin(BinOp::Div, n(6), Box::new(Expr::Group(Box::new(Expr::Bin(BinOp::Sub, n(3), n(3)))))),
+                            1 => Expr::Bin(BinOp::Rem, n(6), n(0)),
+                            2 => Expr::SignExt(n(1), n(2)),
+                            3 => Expr::Bin(BinOp::Shl, n(1), n(70)),
+                            4 => Expr::Bin(BinOp::Add, n(3), n(4)),
+                            _ => Expr::Num(7, Radix::Dec),
+                        }
+                    }
+                    Item::Loop(_, _, inner) | Item::While(_, inner) => strip(inner, r),
                     _ => {}
                 }
             }
         }
-        strip(&mut case.program.items);
+        strip(&mut case.program.items, &mut r);
     }
     acc.cases += 1;
     let pr = pp::print(&case.program, &case.layout_opts);
@@ -266,7 +278,7 @@ pub fn c15(case_seed: u64, acc: &mut Acc) {
         interleaved_ok_rows = cut;
     }
     // ---------------- (4) static
-    let reads = crate::scope::analyse(&case.program).output_reads;
+    let reads = crate::scope::test_output_reads(&case.program, &case.signals);
     let st = match static_stream(tc, seed, 200) {
         Err(p) => viol!(Finding::new(p.signature(), format!("static iteration panicked: {p:?}"))),
         Ok(s) => s,
